@@ -579,7 +579,7 @@ theorem isHSpace_isPyWs (c : Char) (h : isHSpace c = true) : isPyWs c = true := 
 
 theorem rstrip_snoc (l : List Char) (c : Char) : rstrip (l ++ [c]) = if isPyWs c = true then rstrip l else l ++ [c] := by
   unfold rstrip
-  by_cases h : isPyWs c = true <;> simp [List.dropWhile_cons, h]
+  by_cases h : isPyWs c = true <;> simp [h]
 
 theorem snoc_induction {P : List Char → Prop} (h0 : P []) (hs : ∀ l c, P l → P (l ++ [c])) : ∀ l, P l := by
   intro l
@@ -789,10 +789,10 @@ theorem urun_line_then_plain (l t : List Char) (hn : noPair buP l = true) (c : C
   simp only [held, List.nil_append] at heq
   subst ht
   rcases hm' with rfl | rfl
-  · simp only [held, List.append_nil] at heq
+  · simp only [List.append_nil] at heq
     subst heq
     simp [urun, ustep, hcb, hrest]
-  · simp only [held] at heq
+  · simp only at heq
     subst heq
     simp [urun, ustep, hc, hrest]
 
@@ -1199,12 +1199,12 @@ theorem commentBlock_block_pieces (k : Nat) (l0 : List Char) (ls : List (List Ch
 theorem commentBlock_line_pieces (k : Nat) (l0 : List Char) (ls : List (List Char)) :
     commentBlock lineStyle k (l0 :: ls) =
       (['/', '/', '/', ' '] ++ l0) ++ joinNL ((ls.map (fun l => ['/', '/', '/', ' '] ++ l)).map (fun p => spaces k ++ p)) := by
-  simp [commentBlock, lineStyle, joinLines_eq, List.append_assoc, Function.comp_def]
+  simp [commentBlock, lineStyle, joinLines_eq, Function.comp_def]
 
 theorem map_spaces_zero (ps : List (List Char)) : ps.map (fun p => spaces 0 ++ p) = ps := by
   induction ps with
   | nil => rfl
-  | cons p ps ih => simp [spaces_zero_append, ih]
+  | cons p ps ih => simp [spaces_zero_append]
 
 /-- **indent_commentFilter**: Jinja's `indent(w)` applied to the output of the comment filter indents every line of
     the comment and does nothing else — it finds exactly the line boundaries the comment filter put there -/
